@@ -16,12 +16,23 @@ impl MarkdownReader {
 
 impl Reader for MarkdownReader {
     fn document(&self, content: &str) -> Document {
-        let mut reader = MarkdownEventsReader::new();
-        reader.read(content);
+        let read = |text: &str| {
+            let mut reader = MarkdownEventsReader::new();
+            reader.read(text);
 
-        Document {
-            blocks: reader.blocks(),
-            metadata: reader.metadata(),
+            Document {
+                blocks: reader.blocks(),
+                metadata: reader.metadata(),
+            }
+        };
+
+        // pulldown-cmark 0.13 panics (an unwrap in its offset iterator) on a few texts that end in
+        // a line of nothing but whitespace, e.g. ">- [x]:y\n\t"; such an ending carries nothing,
+        // so a text the parser gives up on is read once more without it
+        match std::panic::catch_unwind(|| read(content)) {
+            Ok(document) => document,
+            Err(_) if content.trim_end() != content => read(content.trim_end()),
+            Err(panic) => std::panic::resume_unwind(panic),
         }
     }
 }
